@@ -213,6 +213,11 @@ def run(ctx, rep):
             sj, tt, d = guard
             op, k = d["op"], d["k"]
             thr_ok = (op == "Gt" and k == imax) or (op == "Ge" and k in (imax, imax + 1))
+            cmp_ty = F.ts(b["locals"][d["src"]]["ty"]) if d.get("src") is not None and d["src"] < len(b["locals"]) else "usize"
+            if cmp_ty.startswith("i"):
+                # `old > isize::MAX` on a *signed* count (`AtomicIsize`) is never true: past the limit the value is negative
+                rep.bad("R-OVFGUARD", key + "/threshold", "the overflow guard compares a signed value (%s) with %d: a count that has passed isize::MAX is negative in that type, so the guard can never trip and the count runs on to wrap" % (cmp_ty, k), F.loc(b, tt["span"]), tag)
+                continue
             if not thr_ok:
                 rep.bad("R-OVFGUARD", key + "/threshold", "the overflow guard is `old %s %d`; it must trip exactly when the count has passed isize::MAX (%d)" % ({"Gt": ">", "Ge": ">=", "Lt": "<", "Le": "<=", "Eq": "==", "Ne": "!="}[op], k, imax), F.loc(b, tt["span"]), tag)
             else:
@@ -335,6 +340,7 @@ def main(argv):
             ' The union dispatch rules (a clone made through an ArcUnion increments and tests the count word of the Arc it holds).'
             " Round fourteen: R-OFFSET as a premise (a clone made from a value pointer tests the word at the payload's true offset); the guard may test a value merged from the increment's result and the constant old value of a bounded CAS increment."
             ' Round fifteen: R-ABORT refuses a panic-based abort in std configurations (the panic hook runs first).'
+            " Round seventeen: the guard's comparison must be unsigned."
         ),
         rule_text="instances = guard clauses at the increment site, abort resolution per configuration, clone entry points",
         trusted_base=["rustc const evaluation of the limit and MIR", "panic while panicking aborts", "std::process::abort does not return or unwind"],
